@@ -112,7 +112,9 @@ def gen_library(rng):
 # ------------------------------------------------------------------ scene graphs
 
 def gen_transform(rng):
-    k = rng.choices(['matrix', 'translate', 'scale', 'rotate'], [5, 3, 1, 3])[0]
+    # no <rotate>: cos/sin of a multiple of 90 degrees leave 1e-7 residues in float32, and these graphs
+    # must be exact (signed permutation matrices cover the same rotations; rotate itself is C13's)
+    k = rng.choices(['matrix', 'translate', 'scale'], [5, 3, 1])[0]
     if k == 'translate':
         return [k] + [rng.randint(-5, 5) for _ in range(3)]
     if k == 'scale':
